@@ -309,6 +309,15 @@ class Export(object):
                     + f"event count to {l_min} (max {l_max}) in '{l_min}'.",
                     LimitingExportSizeWarning)
 
+        if filter_arr is not None:
+            # The number of events in the output file is defined by the
+            # selection. `RTDCWriter.rectify_metadata` only corrects the
+            # event count copied from the source dataset if at least one
+            # feature is written, which is not the case for an empty
+            # selection or an empty feature list.
+            meta.setdefault("experiment", {})["event count"] = \
+                int(np.sum(filter_arr))
+
         # Perform actual export
         with RTDCWriter(path,
                         mode="append",
